@@ -1,6 +1,7 @@
 //! erbium-verif: drivers that replay scenarios into the real erbium code and
 //! record NDJSON traces for validation by TLC.  See /verif/DESIGN.md.
 mod dhcp;
+mod store;
 mod util;
 
 fn main() {
@@ -11,6 +12,7 @@ fn main() {
     }
     match args[1].as_str() {
         "dhcp" => dhcp::main(&args[2..]),
+        "store" => store::main(&args[2..]),
         d => {
             eprintln!("unknown driver {}", d);
             std::process::exit(2);
